@@ -18,6 +18,10 @@ func init() {
 		Assumptions: []string{"all goroutines reach the forest only through the package's exported functions and methods", "a single MapPollard instance is involved in each call (no function handles two instances)"},
 		Rules: []RuleDef{
 			{ID: "R12", Statement: "lockset discipline for the struct carrying the RWMutex", Run: runLockset},
+			{ID: "R12i", Statement: "the lock is released by defer wherever the section calls other code", Run: func(p *Program, r *Report) {
+				r.Rule("R12i", "RELEASE-IS-DEFERRED: a function that acquires the lock and makes any call inside the section releases it with defer (the node store, the leaf index and the serialization streams are the user's code: a recovered panic in there must not leave the lock held)")
+				checkReleaseDeferred(p, r, "R12i")
+			}},
 			{ID: "R12h", Statement: "the mutex of a live forest is never replaced", Run: func(p *Program, r *Report) {
 				r.Rule("R12h", "LOCK-NEVER-REPLACED: no live instance of the struct that carries the lock is overwritten as a whole, and its lock field is never re-assigned (everybody has to lock the same mutex)")
 				checkLockNeverReplaced(p, r, "R12h")
